@@ -3,7 +3,10 @@
 package restarteng
 
 import (
+	"encoding/binary"
+
 	"fmt"
+	"github.com/spaolacci/murmur3"
 	"os"
 	"strings"
 	"time"
@@ -38,6 +41,22 @@ type Stats struct {
 }
 
 // special: tables whose column 0 carries a unique-skip-list / B-tree / hash index
+// hashEndKeys are integer keys whose entries the linear-probe hash index places in the last slot of a block page
+// (slot = murmur3(key bytes) % 252): every probe for such a key runs on into the next block page.
+var hashEndKeys = func() []int32 {
+	var out []int32
+	for k := int32(1); k < 400000 && len(out) < 16; k++ {
+		b := []byte{0, byte(k), byte(k >> 8), byte(k >> 16), byte(k >> 24)}
+		h := murmur3.New128()
+		h.Write(b)
+		v := binary.LittleEndian.Uint64(h.Sum(nil))
+		if v%252 == 251 {
+			out = append(out, k)
+		}
+	}
+	return out
+}()
+
 func special(def *dbh.TableDef) string {
 	k := def.Cols[0].Idx
 	if k == dbh.IdxUniqSkip || k == dbh.IdxBtree || k == dbh.IdxHash {
@@ -341,6 +360,9 @@ type GenOpts struct {
 	// B-tree table had a crash restart, later restarts are crash restarts too
 	NoBtreeCleanAfterCrash bool
 	OnExcluded             func(string)
+	// ManyTablesPct: share of histories that start by creating 9-13 six-column tables (names and column names of
+	// different lengths), so that the columns catalog spills over to a second heap page before the restarts begin
+	ManyTablesPct int
 }
 
 type gstate struct {
@@ -355,6 +377,33 @@ func Gen(t *rapid.T, o GenOpts) *Case {
 	g := &gstate{ids: map[string][]int32{}}
 	n := rapid.IntRange(3, 18).Draw(t, "nops")
 	nIdx, nBtree := 0, 0
+	if o.ManyTablesPct > 0 && rapid.IntRange(0, 99).Draw(t, "many") < o.ManyTablesPct {
+		nw := rapid.IntRange(9, 13).Draw(t, "nwide")
+		for w := 0; w < nw; w++ {
+			name := fmt.Sprintf(rapid.SampledFrom([]string{"w%d", "wide%d", "wide_table_%d", "W%d"}).Draw(t, "wname"), w)
+			def := &dbh.TableDef{Name: name}
+			for ci, cn := range []string{"a", "bb", "ccc", "dddd", "eeeee", "ffffff"} {
+				cl := dbh.Col{Name: cn, T: rapid.SampledFrom([]string{"i", "i", "f", "s"}).Draw(t, "wtype"), Idx: dbh.IdxNone}
+				if ci == 0 && rapid.Bool().Draw(t, "widx") {
+					cl.Idx = dbh.IdxSkip
+					nIdx++
+				}
+				def.Cols = append(def.Cols, cl)
+			}
+			g.defs = append(g.defs, def)
+			c.Ops = append(c.Ops, Op{K: "create", Def: def})
+			if w%3 == 2 {
+				if s := genDML(t, g, def, o); s != nil {
+					c.Ops = append(c.Ops, Op{K: "dml", Stmt: s})
+				}
+			}
+		}
+		c.Ops = append(c.Ops, Op{K: restartKind(t, o, c, nBtree)})
+		o.MaxTables = nw + 4
+		if n < 8 {
+			n = 8
+		}
+	}
 	for i := 0; i < n; i++ {
 		k := rapid.IntRange(0, 9).Draw(t, "opk")
 		switch {
@@ -505,6 +554,19 @@ func genDML(t *rapid.T, g *gstate, def *dbh.TableDef, o GenOpts) *dbh.Stmt {
 			if o.DupKeys && sp != dbh.IdxUniqSkip && len(live) > 0 && rapid.IntRange(0, 2).Draw(t, "dup") == 0 {
 				key = live[rapid.IntRange(0, len(live)-1).Draw(t, "dupof")] // duplicate key (non-unique kinds)
 			}
+			if sp == dbh.IdxHash && rapid.Bool().Draw(t, "endkey") {
+				// keys that collide at the end of one block page of the hash index
+				for _, ek := range hashEndKeys {
+					used := false
+					for _, x := range live {
+						used = used || x == ek
+					}
+					if !used {
+						key = ek
+						break
+					}
+				}
+			}
 			r[0] = dbh.IntV(key)
 			if special2(def) {
 				if sp == dbh.IdxUniqSkip {
@@ -540,6 +602,15 @@ func genDML(t *rapid.T, g *gstate, def *dbh.TableDef, o GenOpts) *dbh.Stmt {
 		return &dbh.Stmt{Kind: "update", Table: def.Name, Set: []dbh.SetItem{{Col: cl.Name, V: v}}, Where: dead(dbh.Leaf(def.Cols[0].Name, "=", dbh.IntV(id)))}
 	default:
 		idx := rapid.IntRange(0, len(live)-1).Draw(t, "did")
+		if sp == dbh.IdxHash {
+			for i, x := range live { // prefer a key from the end of a block page
+				for _, ek := range hashEndKeys {
+					if x == ek {
+						idx = i
+					}
+				}
+			}
+		}
 		id := live[idx]
 		var keep []int32
 		for _, x := range live {
